@@ -520,6 +520,12 @@ func gen(r *vlib.R, n int, tier string, emit func(string)) {
 			if r.Chance(1, 2) {
 				a = z
 			}
+			if r.Chance(1, 6) {
+				// same head, different middle, same tail: the run of equal labels is interrupted
+				h, tl := vlib.Pick(r, someLabels), vlib.Pick(r, baseZones)
+				a = under(h, under(vlib.Pick(r, someLabels), tl))
+				b = under(flipCase(r, h), under(vlib.Pick(r, someLabels), tl))
+			}
 			if r.Chance(1, 25) {
 				a = strings.TrimSuffix(a, ".") // unrooted spelling
 				if a == "" {
@@ -607,6 +613,7 @@ var probeTriples = [][3]string{
 	{"x.sub.evil.test.", "evil.test.", "x.sub.evil.test."},
 	{"x\\.evil.test.", "evil.test.", "y.x\\.evil.test."},
 	{"test.", ".", "www.victim.test."},
+	{"sub.x.evil.test.", "sub.y.evil.test.", "sub.x.evil.test."},
 }
 
 func facts() map[string]any {
